@@ -95,6 +95,7 @@ def run(ctx):
     for f in methods:
         analyse_method(f, drop_helpers, d1, d3)
 
+    assignment_redocks(ctx, d1, seq)
     redock_rule(ctx, d5, subs)
     who_may_write(ctx, d2)
     side_typing(ctx, d4)
@@ -522,3 +523,37 @@ def side_typing(ctx, d4):
                             % (e.target, arg0, arg0, owner_attr.strip('_'), S), f, e.stmt)
                 else:
                     d4.ok(f.qualname, '%s is located in the %s of its own %s' % (S, parts[-2], owner_attr.strip('_')), f, e.stmt)
+
+
+def assignment_redocks(ctx, d1, seq):
+    """Item and slice assignment may be given a stream that is docked at ANOTHER unit (the quantifier says so); append/insert/extend
+    may not (their precondition).  So in the assignment entry points every stream that enters the list must go through _redock,
+    which also takes it off the list it was docked in -- never through plain _dock, nor through self.append/insert/extend."""
+    for name in ('_set_stream', '_set_streams'):
+        f = seq.methods.get(name)
+        if f is None:
+            raise AnalysisError('StreamSequence.%s not found' % name)
+        cons = 'StreamSequence.' + name
+        weak = [n for n in walk_no_nested(f.node) if isinstance(n, ast.Call) and isinstance(n.func, ast.Attribute) and src(n.func.value) == 'self'
+                and n.func.attr in ('append', 'insert', 'extend', '_dock')]
+        redocks = [n for n in walk_no_nested(f.node) if isinstance(n, ast.Call) and src(n.func) == 'self._redock']
+        # every store into / append onto self._streams (or a local alias of it) takes a _redock result, or a redock loop over the whole list follows
+        alias = {'self._streams'} | {t.id for n in walk_no_nested(f.node) if isinstance(n, ast.Assign) and src(n.value) == 'self._streams'
+                                     for t in n.targets if isinstance(t, ast.Name)}
+        enters = []
+        for n in walk_no_nested(f.node):
+            if isinstance(n, ast.Assign) and any(isinstance(t, ast.Subscript) and src(t.value) in alias for t in n.targets):
+                enters.append((n, n.value))
+            if isinstance(n, ast.Call) and isinstance(n.func, ast.Attribute) and n.func.attr in ('append', 'insert', 'extend') and src(n.func.value) in alias:
+                enters.append((n, n.args[-1]))
+        loop_redock = any(isinstance(n, ast.For) and src(n.iter) in alias and any(isinstance(x, ast.Call) and src(x.func) == 'self._redock' for x in ast.walk(n))
+                          for n in walk_no_nested(f.node))
+        if weak:
+            d1.fail(cons, 'assignment-without-redock', 'an assigned stream enters through self.%s, which docks it here but leaves it listed at the unit it was docked at before '
+                    '(append/insert/extend/_dock assume a free stream; assignment must use _redock)' % weak[0].func.attr, f, weak[0])
+            continue
+        bad = [st for st, v in enters if not ((isinstance(v, ast.Call) and src(v.func) == 'self._redock') or loop_redock)]
+        if bad or not enters or not redocks:
+            d1.fail(cons, 'assignment-without-redock', 'a stream enters the list without passing through _redock', f, (bad or [f.node])[0])
+        else:
+            d1.ok(cons, '%d entering store(s), each through _redock%s' % (len(enters), ' (loop over the whole list)' if loop_redock else ''), f)
